@@ -149,12 +149,13 @@ def check(ctx):
                     pats = [x for x in patches_on(flat_region, obj) if flat_region.index(x) < flat_region.index(e)]
                     vcond = version_cond(e.conds)
                     unconditional = RETRY_KINDS[kind]
+                    # (on a first transmission DUP is 0: or-ing 0 into the byte and not touching it are the same thing)
                     if unconditional:
-                        ok = len(pats) == 1
+                        ok = len(pats) == 1 or (exp_dup == 0 and not pats)
                     else:
                         # patch present exactly on the v3.1 arm
                         if vcond is True:
-                            ok = len(pats) == 1 and version_cond(pats[0].conds) is True
+                            ok = (len(pats) == 1 and version_cond(pats[0].conds) is True) or (exp_dup == 0 and not pats)
                         elif vcond is False:
                             ok = len(pats) == 0
                         else:
